@@ -6,6 +6,13 @@
 //   - header / data submission iterations (the body of HeaderSubmissionLoop / DataSubmissionLoop through the
 //     block/verif_export.go hooks: isEmpty, getPendingHeaders | createSignedDataToSubmit, submit…ToDA),
 //   - restarts (NewManager on the same datastore),
+//   - INTERLEAVED production attempts (item "produce_i"): the store handed to the Manager is wrapped; at the k-th
+//     store call publishBlockInternal makes (Height() of numPendingHeaders / numPendingData / getPending, the
+//     GetBlockData fetches of numWaitingData, the SetMetadata of its watermark step, and every store call of
+//     block building up to SetHeight) scheduled header / data submission iterations are run synchronously, then
+//     the call proceeds — an interleaving of the aggregation goroutine with the submission loops that the Go
+//     scheduler is free to pick.  The point at which each iteration ran is classified from the call stack (which
+//     function of block/ is reading) and reported to the model as a ThrottleConc.sched,
 // against a scripted DA double that answers truthfully (accept k of n | failure; script end = the caller's
 // context is cancelled).  A DA outage of length n = n failures followed by acceptance; n may exceed
 // maxSubmitAttempts.  Everything runs in testing/synctest bubbles (the backoff sleeps are virtual).
@@ -22,6 +29,8 @@ import (
 	"math/rand"
 	"os"
 	"path/filepath"
+	"runtime"
+	"sort"
 	"strings"
 	"sync"
 	"testing"
@@ -55,10 +64,24 @@ type Outcome struct {
 	F string `json:"f,omitempty"` // fail: notincluded inmempool toobig err seq (only the backoff differs)
 }
 type Item struct {
-	T  string    `json:"t"`            // produce produce_empty headers data restart
-	NE bool      `json:"ne,omitempty"` // produce: the sequencer hands out transactions
+	T  string    `json:"t"`            // produce produce_i produce_empty headers data restart
+	NE bool      `json:"ne,omitempty"` // produce, produce_i: the sequencer hands out transactions
 	N  int       `json:"n,omitempty"`  // produce_empty: number of attempts in a row without transactions
 	SC []Outcome `json:"sc,omitempty"` // headers / data: DA answers, then cancellation
+	At []Inject  `json:"at,omitempty"` // produce_i: submission iterations run inside the attempt
+}
+
+// Inject: at the K-th store call (from 0) the production attempt makes, run these submission iterations, then let
+// the call proceed.  Iterations that cannot run at that call (a data iteration while production holds the data
+// watermark's mutex; a call after the decision of a refused attempt) wait for the next call that allows them;
+// what has not run when the attempt returns runs right after it as ordinary iterations.
+type Inject struct {
+	K    int     `json:"k"`
+	Subs []SubIt `json:"subs"`
+}
+type SubIt struct {
+	T  string    `json:"t"` // headers data
+	SC []Outcome `json:"sc,omitempty"`
 }
 type Replay struct {
 	Seed    int64  `json:"seed"`
@@ -125,7 +148,11 @@ func genHistory(r *rand.Rand, maxLen int) (uint64, uint64, []Item) {
 	var h []Item
 	blocks := 0
 	produce := func() {
-		h = append(h, Item{T: "produce", NE: r.Intn(100) < pNE})
+		it := Item{T: "produce", NE: r.Intn(100) < pNE}
+		if r.Intn(8) == 0 { // the submission loops get their tick while this attempt is under way
+			it.T, it.At = "produce_i", genInjects(r, limit)
+		}
+		h = append(h, it)
 		blocks++
 	}
 	for i := 0; i < n; i++ {
@@ -153,8 +180,95 @@ func genHistory(r *rand.Rand, maxLen int) (uint64, uint64, []Item) {
 			} else {
 				h = append(h, Item{T: "data", SC: acceptAll()}, Item{T: "headers", SC: acceptAll()})
 			}
-			h = append(h, Item{T: "produce", NE: r.Intn(100) < pNE})
+			it := Item{T: "produce", NE: r.Intn(100) < pNE}
+			if r.Intn(8) == 0 {
+				it.T, it.At = "produce_i", genInjects(r, limit)
+			}
+			h = append(h, it)
 		}
+	}
+	return init, limit, h
+}
+
+// submission iterations to run inside one production attempt: 1..2 places among the store calls the attempt
+// makes (3 reads of the limit check, up to L+1 fetches, the watermark steps, about 8 calls of block building),
+// 1..2 iterations at each; mostly against a DA layer that accepts
+func genInjects(r *rand.Rand, limit uint64) []Inject {
+	var at []Inject
+	for i, n := 0, 1+r.Intn(2); i < n; i++ {
+		var k int
+		switch x := r.Intn(10); {
+		case x < 5:
+			k = r.Intn(4) // the reads of the limit check
+		case x < 8:
+			k = 3 + r.Intn(int(limit)+2) // fetches / watermark steps
+		default:
+			k = r.Intn(int(limit) + 14)
+		}
+		in := Inject{K: k}
+		for j, m := 0, 1+r.Intn(2); j < m; j++ {
+			sb := SubIt{T: []string{"headers", "data", "data"}[r.Intn(3)]}
+			if r.Intn(10) < 7 {
+				sb.SC = acceptAll()
+			} else {
+				sb.SC = genScript(r)
+			}
+			in.Subs = append(in.Subs, sb)
+		}
+		at = append(at, in)
+	}
+	return at
+}
+
+// interleaving stream: the node is brought close to the limit (bursts of blocks, mostly with transactions, the
+// header loop keeping up, the data loop lagging), then production attempts run with the submission loops
+// getting their ticks INSIDE them, then rounds against an accepting DA layer.  What the limit check decided on a
+// count that went out of date under its hands must not outlive that attempt.
+func genInterleaved(r *rand.Rand) (uint64, uint64, []Item) {
+	init := []uint64{1, 1, 1, 2, 5}[r.Intn(5)]
+	limit := []uint64{1, 2, 3, 3, 4, 10}[r.Intn(6)]
+	pNE := []int{100, 80, 50, 0}[r.Intn(4)]
+	var h []Item
+	pair := func() {
+		if r.Intn(2) == 0 {
+			h = append(h, Item{T: "headers", SC: acceptAll()}, Item{T: "data", SC: acceptAll()})
+		} else {
+			h = append(h, Item{T: "data", SC: acceptAll()}, Item{T: "headers", SC: acceptAll()})
+		}
+	}
+	h = append(h, Item{T: "produce"}) // the stored genesis block
+	if r.Intn(2) == 0 {
+		h = append(h, Item{T: "headers", SC: acceptAll()})
+	}
+	for seg, nseg := 0, 1+r.Intn(3); seg < nseg; seg++ {
+		for j, k := 0, int(limit)-1+r.Intn(3); j < k; j++ {
+			h = append(h, Item{T: "produce", NE: r.Intn(100) < pNE})
+			switch x := r.Intn(10); {
+			case x < 6:
+				h = append(h, Item{T: "headers", SC: acceptAll()})
+			case x < 7:
+				h = append(h, Item{T: "headers", SC: genScript(r)})
+			case x < 8:
+				h = append(h, Item{T: "data", SC: genScript(r)})
+			}
+		}
+		for j, k := 0, 1+r.Intn(3); j < k; j++ {
+			h = append(h, Item{T: "produce_i", NE: r.Intn(100) < pNE, At: genInjects(r, limit)})
+			if r.Intn(3) == 0 {
+				h = append(h, Item{T: "produce", NE: r.Intn(100) < pNE})
+			}
+		}
+		if r.Intn(6) == 0 {
+			h = append(h, Item{T: "restart"})
+		}
+	}
+	for j, k := 0, 2+r.Intn(int(limit)+2); j < k; j++ {
+		pair()
+		it := Item{T: "produce", NE: r.Intn(100) < pNE}
+		if r.Intn(3) == 0 {
+			it.T, it.At = "produce_i", genInjects(r, limit)
+		}
+		h = append(h, it)
 	}
 	return init, limit, h
 }
@@ -355,6 +469,8 @@ type world struct {
 	m       *block.Manager
 	ctx     context.Context
 	rootDir string
+	att     *attemptCtx // set while an interleaved production attempt runs
+	res     *caseResult
 }
 
 type rndReader struct{ r *rand.Rand }
@@ -394,7 +510,7 @@ func (w *world) start() error {
 	w.seq = &seqDouble{}
 	lg := logging.Logger("c08")
 	logging.SetAllLoggers(logging.LevelFatal)
-	m, err := block.NewManager(w.ctx, w.sig, w.cfg, w.gen, w.st, coreexec.NewDummyExecutor(), w.seq, w.da,
+	m, err := block.NewManager(w.ctx, w.sig, w.cfg, w.gen, &hookStore{Store: w.st, w: w}, coreexec.NewDummyExecutor(), w.seq, w.da,
 		lg, nil, nil, nopBroadcaster[*types.SignedHeader]{}, nopBroadcaster[*types.Data]{},
 		block.NopMetrics(), 1.0, 1.5, block.DefaultManagerOptions())
 	if err != nil {
@@ -402,6 +518,218 @@ func (w *world) start() error {
 	}
 	w.m = m
 	return nil
+}
+
+// ---- the scheduling hook: submission iterations inside a production attempt ------------------------------
+
+// hookStore is the real store; while an interleaved attempt runs, every store call of publishBlockInternal
+// is a point at which scheduled submission iterations may run before the call proceeds.
+type hookStore struct {
+	store.Store
+	w *world
+}
+
+func (s *hookStore) Height(ctx context.Context) (uint64, error) {
+	s.w.storeCall("Height", 0, "", nil)
+	return s.Store.Height(ctx)
+}
+func (s *hookStore) GetBlockData(ctx context.Context, h uint64) (*types.SignedHeader, *types.Data, error) {
+	s.w.storeCall("GetBlockData", h, "", nil)
+	return s.Store.GetBlockData(ctx, h)
+}
+func (s *hookStore) GetSignature(ctx context.Context, h uint64) (*types.Signature, error) {
+	s.w.storeCall("GetSignature", h, "", nil)
+	return s.Store.GetSignature(ctx, h)
+}
+func (s *hookStore) SetMetadata(ctx context.Context, key string, value []byte) error {
+	s.w.storeCall("SetMetadata", 0, key, value)
+	return s.Store.SetMetadata(ctx, key, value)
+}
+func (s *hookStore) SaveBlockData(ctx context.Context, h *types.SignedHeader, d *types.Data, sig *types.Signature) error {
+	s.w.storeCall("SaveBlockData", 0, "", nil)
+	return s.Store.SaveBlockData(ctx, h, d, sig)
+}
+func (s *hookStore) UpdateState(ctx context.Context, st types.State) error {
+	s.w.storeCall("UpdateState", 0, "", nil)
+	return s.Store.UpdateState(ctx, st)
+}
+func (s *hookStore) SetHeight(ctx context.Context, h uint64) error {
+	s.w.storeCall("SetHeight", h, "", nil)
+	if a := s.w.att; a != nil && !a.busy {
+		a.heightSet = true
+	}
+	return s.Store.SetHeight(ctx, h)
+}
+
+// where in the attempt an iteration ran = which queue of ThrottleConc.sched it belongs to
+type firedSub struct {
+	queue string // pre hd fetch loop build
+	idx   int    // loop: before the idx-th fetched item is examined
+	sub   SubIt
+	res   int
+	calls [][]uint64
+}
+
+type attemptCtx struct {
+	due        []Inject // not yet reached, ascending K
+	pend       []SubIt  // reached, waiting for a call that allows them
+	calls      int
+	seenNPH    bool // numPendingHeaders has made its first read
+	seenNPD    bool // numPendingData has made its first read
+	decided    bool // publishBlockInternal itself has called the store: the limit check let the attempt pass
+	heightSet  bool
+	haveFetch  bool
+	firstFetch uint64
+	busy       bool // iterations are running: their own store calls are not points
+	fired      []firedSub
+	points     []string
+}
+
+// functions of /repo on the stack above the store wrapper, innermost first, up to the attempt's entry point
+func callerFuncs() []string {
+	pcs := make([]uintptr, 48)
+	n := runtime.Callers(2, pcs)
+	frames := runtime.CallersFrames(pcs[:n])
+	var out []string
+	for {
+		f, more := frames.Next()
+		switch {
+		case strings.Contains(f.Function, "harness/c08."):
+		case strings.HasSuffix(f.Function, ".VerifPublishBlock"):
+			return out
+		default:
+			out = append(out, f.Function)
+		}
+		if !more {
+			return out
+		}
+	}
+}
+
+func hasFn(fs []string, name string) bool {
+	for _, f := range fs {
+		if strings.HasSuffix(f, "."+name) {
+			return true
+		}
+	}
+	return false
+}
+
+// storeCall classifies the point the attempt has reached from WHO is reading (the call stack), and runs the
+// iterations scheduled for it:
+//   pre    first read of numPendingHeaders (before it loads the header watermark)
+//   hd     first read of numPendingData (the header watermark has been loaded, the data watermark not yet)
+//   fetch  getPending inside numWaitingData: its watermark load is done; Height() and the GetBlockData fetches
+//   loop   SetMetadata inside numWaitingData's watermark step over the empty item h (the data watermark's mutex is
+//          held: only header iterations can run); model: before the next item is examined
+//   build  any store call made after publishBlockInternal itself has called the store (the limit check is over
+//          and let the attempt pass), up to and including SetHeight
+// Reads made for the refusal's log message and anything after SetHeight are no points.
+func (w *world) storeCall(method string, h uint64, key string, value []byte) {
+	a := w.att
+	if a == nil || a.busy {
+		return
+	}
+	k := a.calls
+	a.calls++
+	for len(a.due) > 0 && a.due[0].K <= k {
+		a.pend = append(a.pend, a.due[0].Subs...)
+		a.due = a.due[1:]
+	}
+	fs := callerFuncs()
+	queue, idx, headersOnly := "", 0, false
+	direct := len(fs) > 0 && strings.HasSuffix(fs[0], ".publishBlockInternal")
+	switch {
+	case a.heightSet:
+	case a.decided || direct:
+		a.decided = true
+		queue = "build"
+	case hasFn(fs, "numWaitingData"):
+		if hasFn(fs, "setLastSubmittedHeight") {
+			if method == "SetMetadata" && key == block.LastSubmittedDataHeightKey && len(value) == 8 && a.haveFetch {
+				if hh := binary.LittleEndian.Uint64(value); hh >= a.firstFetch {
+					queue, idx, headersOnly = "loop", int(hh-a.firstFetch)+1, true
+				}
+			}
+		} else if method == "Height" || method == "GetBlockData" {
+			if method == "GetBlockData" && !a.haveFetch {
+				a.haveFetch, a.firstFetch = true, h
+			}
+			queue = "fetch"
+		}
+	case hasFn(fs, "numPendingData"):
+		if !a.seenNPD {
+			a.seenNPD = true
+			queue = "hd"
+		}
+	case hasFn(fs, "numPendingHeaders"):
+		if !a.seenNPH {
+			a.seenNPH = true
+			queue = "pre"
+		}
+	}
+	a.points = append(a.points, method+":"+queue)
+	if queue == "" || len(a.pend) == 0 {
+		return
+	}
+	a.busy = true
+	var keep []SubIt
+	for _, sb := range a.pend {
+		if headersOnly && sb.T != "headers" {
+			keep = append(keep, sb)
+			continue
+		}
+		r, calls := w.runSub(sb.T, sb.SC)
+		a.fired = append(a.fired, firedSub{queue: queue, idx: idx, sub: sb, res: r, calls: calls})
+	}
+	a.pend = keep
+	a.busy = false
+}
+
+// one iteration of a submission loop (the body of HeaderSubmissionLoop / DataSubmissionLoop after the tick)
+func (w *world) runSub(T string, sc []Outcome) (r int, calls [][]uint64) {
+	w.da.script = append([]Outcome{}, sc...)
+	n0 := len(w.da.calls)
+	if T == "headers" {
+		if w.m.VerifLastSubmittedHeaderHeight() == w.height() { // isEmpty
+			r = 0
+		} else if hs, err := w.m.VerifGetPendingHeaders(w.ctx); err != nil {
+			r = 2
+		} else if len(hs) == 0 {
+			r = 1
+		} else if err := w.m.VerifSubmitHeadersToDA(w.ctx, hs); err != nil {
+			r = 4
+		} else {
+			r = 3
+		}
+	} else {
+		if w.m.VerifLastSubmittedDataHeight() == w.height() { // isEmpty
+			r = 0
+		} else if sds, err := w.m.VerifCreateSignedDataToSubmit(w.ctx); err != nil {
+			r = 2
+		} else if len(sds) == 0 {
+			r = 1
+		} else if err := w.m.VerifSubmitDataToDA(w.ctx, sds); err != nil {
+			r = 4
+		} else {
+			r = 3
+		}
+	}
+	w.da.script = nil
+	want := map[string]string{"headers": "h", "data": "d"}[T]
+	for _, c := range w.da.calls[n0:] {
+		calls = append(calls, c.heights)
+		if c.kind != want {
+			w.res.fail("blob-of-wrong-kind", fmt.Sprintf("a %s submission carried blobs of kind %q", T, c.kind))
+		}
+	}
+	if r == 4 {
+		w.res.nExhausted++
+	}
+	if r == 2 {
+		w.res.fail("pending-range-unreadable", fmt.Sprintf("%s iteration: reading the pending range failed (watermarks %d/%d, height %d)", T, w.m.VerifLastSubmittedHeaderHeight(), w.m.VerifLastSubmittedDataHeight(), w.height()))
+	}
+	return
 }
 
 func (w *world) persisted(kind string) uint64 {
@@ -486,6 +814,9 @@ type itemOut struct {
 	height  uint64
 	wh, wd  uint64 // in-memory watermarks after the item
 	ph, pd  uint64 // recorded watermarks after the item (0 = none)
+	inter   bool       // an interleaved attempt: subs = what each iteration inside it did, in order
+	subs    []firedSub
+	late    []SubIt // scheduled inside the attempt but never reached: run after it
 }
 
 type caseResult struct {
@@ -499,6 +830,11 @@ type caseResult struct {
 	nRefused   int
 	nExhausted int
 	nProduced  int
+	stale      bool // an interleaved attempt was refused on a count that an iteration inside it made out of date
+	nStale     int
+	nInterRef  int
+	nInterProd int
+	points     map[string]int // where interleaved iterations ran
 }
 
 func (r *caseResult) fail(sig, what string) {
@@ -547,11 +883,13 @@ func runCase(seed int64, c int, init, limit uint64, hist []Item, rootDir string)
 	}()
 	r := rand.New(rand.NewSource(seed*7919 + int64(c)*104729 + 8))
 	_ = os.RemoveAll(rootDir)
+	res.points = map[string]int{}
 	w, err := newWorld(r, init, limit, rootDir)
 	if err != nil {
 		res.err = err
 		return
 	}
+	w.res = res
 	obs := func(io *itemOut) {
 		io.height = w.height()
 		io.wh, io.wd = w.m.VerifLastSubmittedHeaderHeight(), w.m.VerifLastSubmittedDataHeight()
@@ -573,8 +911,30 @@ func runCase(seed int64, c int, init, limit uint64, hist []Item, rootDir string)
 	}
 	// one production attempt; returns whether it was refused.  The oracle's facts are read from the store
 	// and the DA double lazily (only on a refusal: a refused attempt changes nothing they depend on).
-	attempt := func(i int, wantNE bool) bool {
+	attempt := func(i int, wantNE bool, inj []Inject, io *itemOut) bool {
 		before := w.height()
+		interleaved := inj != nil
+		var nwait0, first0 uint64
+		var a *attemptCtx
+		if interleaved {
+			// the property's count when the attempt begins (during the attempt it can only go down: the height is
+			// fixed and the DA layer only gains)
+			nwait0, first0 = w.waiting()
+			a = &attemptCtx{due: append([]Inject{}, inj...)}
+			sort.SliceStable(a.due, func(x, y int) bool { return a.due[x].K < a.due[y].K })
+			defer func() {
+				w.att = nil
+				io.inter, io.subs = true, a.fired
+				for _, f := range a.fired {
+					res.points[f.queue]++
+				}
+				// what did not get its point runs right after the attempt (reported as ordinary iterations)
+				for _, in := range a.due {
+					a.pend = append(a.pend, in.Subs...)
+				}
+				io.late = a.pend
+			}()
+		}
 		if wantNE {
 			n := 1 + r.Intn(3)
 			var txs [][]byte
@@ -589,13 +949,18 @@ func runCase(seed int64, c int, init, limit uint64, hist []Item, rootDir string)
 		}
 		wdBefore := w.m.VerifLastSubmittedDataHeight()
 		whBefore := w.m.VerifLastSubmittedHeaderHeight()
+		w.att = a
 		if err := w.m.VerifPublishBlock(w.ctx); err != nil {
 			res.err = fmt.Errorf("publish failed: %w", err)
 			return false
 		}
+		w.att = nil // the oracle's own reads are no points
 		switch w.height() {
 		case before + 1:
 			res.nProduced++
+			if interleaved {
+				res.nInterProd++
+			}
 			res.chain = append(res.chain, w.nonEmpty(before+1))
 			return false
 		case before:
@@ -604,6 +969,23 @@ func runCase(seed int64, c int, init, limit uint64, hist []Item, rootDir string)
 			return false
 		}
 		res.nRefused++
+		if interleaved {
+			// ---- oracle, interleaved attempt: the refusal is justified by L blocks waiting when the attempt began
+			// (its count may be out of date when it returns — that costs this one attempt, see below)
+			res.nInterRef++
+			nwait, _ := w.waiting()
+			switch {
+			case nwait0 < limit:
+				res.fail("interleaved-attempt-refused-with-fewer-than-limit-blocks-waiting", fmt.Sprintf("limit %d, initial height %d, height %d: an attempt with %d submission iteration(s) inside was refused although only %d committed block(s) waited for the DA layer when it began (first waiting: %d)", limit, init, before, len(a.fired), nwait0, first0))
+			case nwait < limit:
+				res.stale = true
+				res.nStale++
+			}
+			if acceptingPair(hist, i-1) {
+				res.fail("production-stopped-although-da-accepts", fmt.Sprintf("limit %d, initial height %d: block %d refused right after a header and a data submission iteration that the DA layer accepted", limit, init, before+1))
+			}
+			return true
+		}
 		// ---- oracle: a refusal is justified only by L committed blocks still waiting for the DA layer
 		if nwait, first := w.waiting(); nwait < limit {
 			allEmpty, anyNE := true, false
@@ -615,6 +997,10 @@ func runCase(seed int64, c int, init, limit uint64, hist []Item, rootDir string)
 			}
 			sig := "refused-with-fewer-than-limit-blocks-waiting"
 			switch {
+			case res.stale:
+				// an earlier attempt was refused on a count that went out of date while it was being taken; nothing of
+				// that refusal may outlive it
+				sig = "refused-again-after-stale-refusal"
 			case before < w.gen.InitialHeight:
 				sig = "first-block-refused-initial-height-above-limit"
 			case before-whBefore < limit && allEmpty:
@@ -644,7 +1030,7 @@ func runCase(seed int64, c int, init, limit uint64, hist []Item, rootDir string)
 		switch it.T {
 		case "produce":
 			io := itemOut{coqItem: "IProduce " + vgen.Bool(it.NE)}
-			if attempt(i, it.NE) {
+			if attempt(i, it.NE, nil, nil) {
 				io.res = 1
 			}
 			if res.err != nil {
@@ -652,6 +1038,42 @@ func runCase(seed int64, c int, init, limit uint64, hist []Item, rootDir string)
 			}
 			obs(&io)
 			enforced()
+		case "produce_i":
+			io := itemOut{}
+			inj := it.At
+			if inj == nil {
+				inj = []Inject{}
+			}
+			if attempt(i, it.NE, inj, &io) {
+				io.res = 1
+			}
+			if res.err != nil {
+				return
+			}
+			io.coqItem = "XProduceI (" + schedCoq(io.subs) + ") " + vgen.Bool(it.NE)
+			obs(&io)
+			enforced()
+			// ---- oracle: a refused attempt inside which a DA layer that accepts took a header and a data
+			// iteration leaves nothing waiting (so the next attempt must produce: judged there)
+			if io.res == 1 {
+				hacc, dacc := false, false
+				for _, f := range io.subs {
+					if f.sub.T == "headers" && acceptsAll(Item{SC: f.sub.SC}) {
+						hacc = true
+					}
+					if f.sub.T == "data" && acceptsAll(Item{SC: f.sub.SC}) {
+						dacc = true
+					}
+				}
+				if nwait, first := w.waiting(); hacc && dacc && nwait > 0 {
+					res.fail("blocks-left-waiting-after-accepting-iterations", fmt.Sprintf("limit %d, initial height %d, height %d: a refused attempt had a header and a data submission iteration inside that the DA layer accepted, yet %d committed block(s) still wait (first: %d)", limit, init, w.height(), nwait, first))
+				}
+			}
+			for _, sb := range io.late {
+				lo := itemOut{coqItem: subItemCoq(sb)}
+				lo.res, lo.calls = w.runSub(sb.T, sb.SC)
+				obs(&lo)
+			}
 		case "produce_empty":
 			io := itemOut{coqItem: "IProduceEmptyN " + vgen.N(uint64(it.N))}
 			for j := 0; j < it.N; j++ {
@@ -659,7 +1081,7 @@ func runCase(seed int64, c int, init, limit uint64, hist []Item, rootDir string)
 				if j > 0 {
 					k = -1 // only the first attempt of the stretch comes right after the preceding iterations
 				}
-				if attempt(k, false) {
+				if attempt(k, false, nil, nil) {
 					io.res++
 				}
 				if res.err != nil {
@@ -676,56 +1098,14 @@ func runCase(seed int64, c int, init, limit uint64, hist []Item, rootDir string)
 			io := itemOut{coqItem: "IRestart"}
 			obs(&io)
 		case "headers", "data":
-			w.da.script = append([]Outcome{}, it.SC...)
-			n0 := len(w.da.calls)
-			var io itemOut
-			if it.T == "headers" {
-				io.coqItem = "IHeaders " + scriptCoq(it.SC)
-				if w.m.VerifLastSubmittedHeaderHeight() == w.height() { // isEmpty
-					io.res = 0
-				} else if hs, err := w.m.VerifGetPendingHeaders(w.ctx); err != nil {
-					io.res = 2
-				} else if len(hs) == 0 {
-					io.res = 1
-				} else if err := w.m.VerifSubmitHeadersToDA(w.ctx, hs); err != nil {
-					io.res = 4
-				} else {
-					io.res = 3
-				}
-			} else {
-				io.coqItem = "IData " + scriptCoq(it.SC)
-				if w.m.VerifLastSubmittedDataHeight() == w.height() { // isEmpty
-					io.res = 0
-				} else if sds, err := w.m.VerifCreateSignedDataToSubmit(w.ctx); err != nil {
-					io.res = 2
-				} else if len(sds) == 0 {
-					io.res = 1
-				} else if err := w.m.VerifSubmitDataToDA(w.ctx, sds); err != nil {
-					io.res = 4
-				} else {
-					io.res = 3
-				}
-			}
-			w.da.script = nil
-			for _, c := range w.da.calls[n0:] {
-				io.calls = append(io.calls, c.heights)
-				want := map[string]string{"headers": "h", "data": "d"}[it.T]
-				if c.kind != want {
-					res.fail("blob-of-wrong-kind", fmt.Sprintf("a %s submission carried blobs of kind %q", it.T, c.kind))
-				}
-			}
-			if io.res == 4 {
-				res.nExhausted++
-			}
+			io := itemOut{coqItem: subItemCoq(SubIt{T: it.T, SC: it.SC})}
+			io.res, io.calls = w.runSub(it.T, it.SC)
 			// ---- oracle: a DA layer that accepts gets everything accepted: after one header and one data
 			// iteration nothing committed is left waiting
 			if acceptingPair(hist, i) {
 				if nwait, first := w.waiting(); nwait > 0 {
 					res.fail("blocks-left-waiting-after-accepting-iterations", fmt.Sprintf("limit %d, initial height %d, height %d: after a header and a data submission iteration that the DA layer accepted, %d committed block(s) still wait (first: %d, non-empty: %v; header watermark %d, data watermark %d)", limit, init, w.height(), nwait, first, w.nonEmpty(first), w.m.VerifLastSubmittedHeaderHeight(), w.m.VerifLastSubmittedDataHeight()))
 				}
-			}
-			if io.res == 2 {
-				res.fail("pending-range-unreadable", fmt.Sprintf("%s iteration: reading the pending range failed (watermarks %d/%d, height %d)", it.T, w.m.VerifLastSubmittedHeaderHeight(), w.m.VerifLastSubmittedDataHeight(), w.height()))
 			}
 			obs(&io)
 		}
@@ -752,12 +1132,67 @@ func nlist(xs []uint64) string {
 	return vgen.List(s)
 }
 
-func (io itemOut) coq() string {
+func callsCoq(calls [][]uint64) string {
 	var cs []string
-	for _, c := range io.calls {
+	for _, c := range calls {
 		cs = append(cs, nlist(c))
 	}
-	return fmt.Sprintf("mk_obs %s %s %s %s %s %s %s", vgen.N(uint64(io.res)), vgen.List(cs), vgen.N(io.height), vgen.N(io.wh), vgen.N(io.wd), vgen.N(io.ph), vgen.N(io.pd))
+	return vgen.List(cs)
+}
+
+func (io itemOut) coq() string {
+	o := fmt.Sprintf("mk_obs %s %s %s %s %s %s %s", vgen.N(uint64(io.res)), callsCoq(io.calls), vgen.N(io.height), vgen.N(io.wh), vgen.N(io.wd), vgen.N(io.ph), vgen.N(io.pd))
+	if !io.inter {
+		return "xo (" + o + ")"
+	}
+	var ss []string
+	for _, f := range io.subs {
+		ss = append(ss, "("+vgen.N(uint64(f.res))+", "+callsCoq(f.calls)+")")
+	}
+	return "(" + o + ", " + vgen.List(ss) + ")"
+}
+
+func (io itemOut) item() string {
+	if io.inter {
+		return io.coqItem
+	}
+	return "XI (" + io.coqItem + ")"
+}
+
+func subItemCoq(sb SubIt) string {
+	if sb.T == "headers" {
+		return "IHeaders " + scriptCoq(sb.SC)
+	}
+	return "IData " + scriptCoq(sb.SC)
+}
+
+func subCoq(sb SubIt) string {
+	if sb.T == "headers" {
+		return "SHeaders " + scriptCoq(sb.SC)
+	}
+	return "SData " + scriptCoq(sb.SC)
+}
+
+// the ThrottleConc.sched of an attempt, from where its iterations actually ran (q_dd — between the load of
+// numPendingData and the load of getPending — has no store call in it and is never driven)
+func schedCoq(fired []firedSub) string {
+	q := map[string][]string{}
+	var loop [][]string
+	for _, f := range fired {
+		if f.queue == "loop" {
+			for len(loop) <= f.idx {
+				loop = append(loop, nil)
+			}
+			loop[f.idx] = append(loop[f.idx], subCoq(f.sub))
+			continue
+		}
+		q[f.queue] = append(q[f.queue], subCoq(f.sub))
+	}
+	var ls []string
+	for _, l := range loop {
+		ls = append(ls, vgen.List(l))
+	}
+	return fmt.Sprintf("mk_sched %s %s [] %s %s %s", vgen.List(q["pre"]), vgen.List(q["hd"]), vgen.List(q["fetch"]), vgen.List(ls), vgen.List(q["build"]))
 }
 
 // run a case inside a synctest bubble (virtual time)
@@ -795,6 +1230,7 @@ func TestVerif(t *testing.T) {
 		init, limit uint64
 		hist        []Item
 		boundary    bool
+		inter       bool
 	}
 	var jobs []job
 	if e.Replay != "" {
@@ -822,6 +1258,10 @@ func TestVerif(t *testing.T) {
 		for c := 0; c < nb && e.N > 0; c++ {
 			jobs = append(jobs, job{seed: e.Seed, c: 1000000 + c, boundary: true})
 		}
+		// the interleaving stream: N/3 cases on top of the N general ones
+		for c := 0; c < e.N/3; c++ {
+			jobs = append(jobs, job{seed: e.Seed, c: 2000000 + c, inter: true})
+		}
 		for c := 0; c < e.N; c++ {
 			jobs = append(jobs, job{seed: e.Seed, c: c})
 		}
@@ -837,6 +1277,9 @@ func TestVerif(t *testing.T) {
 		if hist == nil && j.boundary {
 			init, limit, hist = genBoundary(caseRng(j.seed, j.c), j.c-1000000)
 			res.Count("stream:size-boundary")
+		} else if hist == nil && j.inter {
+			init, limit, hist = genInterleaved(caseRng(j.seed, j.c))
+			res.Count("stream:interleaving")
 		} else if hist == nil {
 			init, limit, hist = genHistory(caseRng(j.seed, j.c), maxLen)
 		}
@@ -893,9 +1336,15 @@ func TestVerif(t *testing.T) {
 		res.Distribution["produce:refused"] += cr.nRefused
 		res.Distribution["produce:produced"] += cr.nProduced
 		res.Distribution["iteration:gave-up-after-30-attempts"] += cr.nExhausted
+		res.Distribution["interleaved-attempt:produced"] += cr.nInterProd
+		res.Distribution["interleaved-attempt:refused"] += cr.nInterRef
+		res.Distribution["interleaved-attempt:refused-on-a-count-out-of-date-at-return"] += cr.nStale
+		for q, n := range cr.points {
+			res.Distribution["iteration-inside-attempt:"+q] += n
+		}
 		var items, outs []string
 		for _, o := range cr.outs {
-			items = append(items, o.coqItem)
+			items = append(items, o.item())
 			outs = append(outs, o.coq())
 		}
 		if cr.nProduced > 0 && cr.nRefused > 0 && cr.ncalls > 0 {
@@ -929,7 +1378,7 @@ func TestVerif(t *testing.T) {
 	res.Distinct = len(distinct)
 	res.Rule = "real aggregator Manager (NewManager, real store/signer/publishBlockInternal) with MaxPendingHeadersAndData L in {1,2,3,10} and initial height in {1 (3/7), 2, 5, 12, 1000}; block mix per case: all-empty, all non-empty, 50% or 25% non-empty (the block at the initial height is always the stored genesis block, empty); histories of 4..maxLen items: bursts of 1..L+1 production attempts, single header / data submission iterations through the hooks (body of HeaderSubmissionLoop / DataSubmissionLoop), restarts (NewManager on the same datastore); every DA call answered truthfully from a script: accept all (40%), outage of 1..5 answers then acceptance, outage of 30..65 answers (> maxSubmitAttempts), outage until the context ends, acceptance of 1..3 blobs at a time, context cancelled at once; 80% of histories end with 2..2L+3 rounds of (header iteration, data iteration in either order against an accepting DA layer, then one production attempt) on which resumption / no-deadlock is judged; after every such pair of iterations no committed block may be left waiting; refusal-justified and limit-enforced are judged at every production attempt; plus a size-boundary stream (2 cases per run, 3 per thorough shard): limit in {255,256,257,300,1000}, idle stretches of 255/256/257/600 attempts without transactions in a row (run-length item IProduceEmptyN, expanded inside Coq) before / between blocks with transactions, DA layer healthy, 3..5 closing rounds, same oracles; all in synctest bubbles (virtual time); non-trivial = at least one block produced, one refusal and one DA call; distinct = distinct (initial height, limit, model history) terms"
 	res.Cases = len(cases)
-	header := "From Coq Require Import NArith List Bool.\nFrom Verif Require Import Model.Throttle Check.ThrottleCheck."
+	header := "From Coq Require Import NArith List Bool.\nFrom Verif Require Import Model.Throttle Model.ThrottleConc Check.ThrottleCheck."
 	path := filepath.Join(e.Out, "cases_C08.v")
 	if err := vgen.WriteCases(path, header, defsAll, "tcase", cases, "mismatches"); err != nil {
 		t.Fatal(err)
